@@ -209,7 +209,7 @@ type Job = (usize, Arc<jq::F>, Kind, i64, String);
 
 pub fn main(tier: Tier) -> ! {
     jq::quiet_panics();
-    let run = Run::new("C04", "model_checking", tier);
+    let run = Run::new("C04", "exploration", tier);
     let progs = programs();
     let ns: Vec<i64> = if run.quick() { vec![100_000, 200_000] } else { vec![100_000, 200_000, 1_000_000, 2_000_000] };
     eprintln!("[C04] {} programs x N in {:?}, worker stack {} KiB", progs.len(), ns, STACK >> 10);
